@@ -173,5 +173,17 @@ PROPS['C12'] = {
             'limits, Newton / BFGS / nonlinear CG. Thorough tier adds a bounded native monitor, never counted as proved',
     'technique': 'contract-based deductive verification: inductive loop invariants and one-step lemmas over symbolic execution of the real loop bodies in a Gram algebra, sub-differential calculus via prox atoms, z3',
 }
+PROPS['C20'] = {
+    'level': 'proof',
+    'text': 'Deductive: the real __eq__ / __ne__ / __hash__ / __contains__ of 23 classes (sets.py incl. CartesianProduct / SetUnion / SetIntersection / FiniteSet, IntervalProd, the weighting classes incl. the '
+            'NumPy / product-space subclasses, NumpyTensorSpace, ProductSpace, RectGrid, RectPartition, DiscretizedSpace) are executed on instances with symbolic fields (lengths, shapes, exponents, constants, '
+            'array contents of symbolic length, abstract leaf sets / spaces with an arbitrary equivalence) and proved reflexive, symmetric (also across 18 mixed class pairs, with Python\'s subclass-first '
+            'dispatch), transitive, != the negation of ==, hashable with a == b ==> equal abstract hash keys (bytes: equal bit patterns, the two float zeros distinguished); x in space <=> x.space == space; '
+            'TensorSpace._astype hands on shape, dtype and the whole weighting incl. exponent.',
+    'note': 'trusted: pyvc interpreter, Python hashing guarantees for numbers / tuples / frozensets / bytes, class invariants of the instances (built field-wise, not through __init__), structural induction over the '
+            'leaves, NumPy broadcasting rule for 1-d operands. 5 genuine defects found and fixed in /repo (fix: commits). Not under contract: element() factories (array conversion, memory sharing), byaxis / '
+            'ProductSpace.__getitem__ / element indexing, MatrixWeighting, custom weightings',
+    'technique': 'contract-based deductive verification: equivalence / hash-coherence laws as relational postconditions over symbolic execution of the real dunder methods, abstract hash keys, z3',
+}
 for _k in PROPS:
     NOT_APPLICABLE.pop(_k, None)
